@@ -264,6 +264,10 @@ LINSOLVE = {
     'linsolve-dense-mag': ('dense', 'mag', {}), 'linsolve-sparse-mag': ('sparse', 'mag', {}),
     'linsolve-cg-mag': ('sparse', 'mag', dict(solver='cg')),
     'linsolve-dense-mag-nolda': ('dense', 'mag', dict(lda=False)),
+    # matrix and right-hand side scaled in OPPOSITE directions: the solution changes by 1e10 / 1e20 between designs and CG
+    # starts from the previous one (known finding K07 when the guess is >= 1e9 times larger than the new solution:
+    # the ratio is recorded per history, see run_stress)
+    'linsolve-cg-mag-opposite': ('sparse', 'mag', dict(solver='cg', opposite=True)),
 }
 KIND = ('kgen', 'ksym', 'kherm', 'keig')
 
@@ -333,7 +337,9 @@ def build_lib(pym, fm, recipe, rs):
             aligned = True
         elif cls == 'mag':      # u = A^-1 b of magnitude 1e10 / 1e-10: compared relative to the result, no absolute floor
             alt['b'] = [('huge', scaled(rhs_sampler(n), 1e5)), ('tiny', scaled(rhs_sampler(n), 1e-5))]
-            if opt.get('solver') == 'cg':
+            if opt.get('opposite'):     # ratio of successive solutions 1e11 / 1e22: clear of the threshold 1e9 of K07
+                alt['b'] = [('huge', scaled(rhs_sampler(n), 1e6)), ('tiny', scaled(rhs_sampler(n), 1e-6))]
+            if opt.get('solver') == 'cg' and not opt.get('opposite'):
                 # an iterative solver that starts from the previous solution cannot represent a solution 1e20 times smaller
                 # than its initial guess (CG ends with its "Maximum iterations reached" warning: no result to solver
                 # tolerance, reported as an observation): here matrix and right-hand side are scaled ALIKE
@@ -530,7 +536,7 @@ def build_lib(pym, fm, recipe, rs):
     else:
         raise ValueError(recipe)
     return dict(sigs=sigs, inputs=inputs, alt=alt, seedable=seedable, net=net, tol=tol, avoid=avoid, aligned=aligned,
-                floor=floor)
+                floor=floor, track_guess=recipe == 'linsolve-cg-mag-opposite')
 
 
 SOE_WIDE = ('soe-bc', 'soe-dense-bc', 'soe-dense-bcgen', 'soe-dense-kgen', 'soe-ksym-splu', 'soe-dense-mag',
@@ -543,6 +549,9 @@ RECIPES = sorted(LINSOLVE) + list(SOE_WIDE) + ['eigensolve-sparse-bc', 'eigensol
     'eigensolve-sparse', 'eigensolve-sparse-shift', 'eigensolve-sparse-gen', 'eigensolve-sparse-fe',
     'scaling-constraint', 'pnorm-undamped']
 CONTROLS = ['control:scaling-objective', 'control:aggscaling-damped']
+# deliberate stress plans only (the ratio |initial guess| / |new solution| that decides about the known finding K07 is
+# recorded by run_stress)
+STRESS_ONLY = {'linsolve-cg-mag-opposite'}
 
 
 # ============================================================================ observations
@@ -728,6 +737,8 @@ def run_stress(pym, fm, recipe, seed, focus, regimes, stats=None):
     # never evaluated: cloned for the comparisons; the last comparison of the history constructs a new network
     pristine = build_lib(pym, fm, recipe, np.random.default_rng(data_seed))
 
+    guess = dict(norm=0.0, ratio=0.0, pending=False)
+
     def design(regime):
         for k in sorted(net['inputs']):
             new = draw_input(g, net, k, regime)
@@ -735,6 +746,10 @@ def run_stress(pym, fm, recipe, seed, focus, regimes, stats=None):
                 N.reset()               # seeds of the old shape must not survive a change of shape
             cur[k] = new
             net['sigs'][k].state = np.array(new, copy=True)
+        if net.get('track_guess'):      # the solution of the previous design is the initial guess of this response
+            u0 = net['sigs']['u'].state
+            guess['norm'] = 0.0 if u0 is None or np.shape(u0) != np.shape(cur['b']) else float(np.linalg.norm(u0))
+            guess['pending'] = True
         N.response()
         log.append(f'design(regime {regime}); response')
 
@@ -768,6 +783,10 @@ def run_stress(pym, fm, recipe, seed, focus, regimes, stats=None):
                 if not close(after[k][1], before[k][1]) or not close(after[k][0], before[k][0], 0.0):
                     failed.append(f'pass {len(log)}: sensitivity() without seed changed {k}')
         if check:
+            if guess['pending']:        # norm of the initial guess over norm of the (fresh) solution of this design
+                guess['pending'] = False
+                un = float(np.linalg.norm(fresh['u'][0]))
+                guess['ratio'] = max(guess['ratio'], guess['norm'] / un if un > 0 else 0.0)
             compare(observe_all(net), fresh, tol, f'pass {len(log)} {spec}', failed, net['floor'])
 
     design(regimes[0])
@@ -796,7 +815,7 @@ def run_stress(pym, fm, recipe, seed, focus, regimes, stats=None):
         if not close(canon(s.sensitivity), None):
             failed.append(f'final reset leaves a sensitivity on {k}')
     return failed, dict(recipe=recipe, kind='stress', seed=int(seed), focus=int(focus), regimes=list(regimes), ops=log,
-                        skipped_K02=skipped)
+                        skipped_K02=skipped, **(dict(guess_ratio=guess['ratio']) if net.get('track_guess') else {}))
 
 
 # ============================================================================ random histories
@@ -835,9 +854,13 @@ def run_lib(pym, fm, recipe, seed, nops, stats=None):
     ops = lib_history(g, net, nops)
     log = []
     responded = False
+    regime_now = 0
     for op in ops:
         if op[0] == 'set':
-            reshaped = False
+            # a change of regime of an aligned network may change the VALUE KIND of the states (real <-> complex): like seeds
+            # of an old shape, seeds of the old kind are not "current seeds" of the new evaluation
+            reshaped = bool(net['aligned']) and op[2] != regime_now
+            regime_now = op[2]
             for k in (sorted(net['inputs']) if net['aligned'] else [op[1]]):   # aligned: regimes of all inputs belong together
                 new = draw_input(g, net, k, op[2])
                 reshaped = reshaped or np.shape(new) != np.shape(cur[k])
@@ -846,7 +869,7 @@ def run_lib(pym, fm, recipe, seed, nops, stats=None):
             responded = False
             if reshaped:        # seeds of the old shape must not survive a change of shape: clean the network first
                 net['net'].reset()
-                log.append('reset(after reshape)')
+                log.append('reset(after reshape / change of value kind)')
         elif op[0] == 'resp':
             net['net'].response()
             responded = True
